@@ -45,6 +45,7 @@ func runMain(args []string) int {
 	bounds := fs.String("b", "", "bounds N=6,M=3")
 	timeout := fs.Int("timeout", 0, "seconds")
 	allowPanic := fs.Bool("allowpanic", false, "go panics are not violations")
+	preempt := fs.Int("preempt", -1, "schedule exploration: pre-emption bound (-1 unbounded)")
 	fs.Parse(args)
 
 	spec := &Spec{Harness: strings.Split(*harnessFile, ",")}
@@ -79,7 +80,7 @@ func runMain(args []string) int {
 		}
 	}
 	opts := RunOpts{Entry: *entry, Bounds: bm, Solver: *solver, Sched: *explore_, Unwind: *loopBound, MaxSteps: *maxSteps,
-		MaxPaths: *maxPaths, Workers: *nworkers, AllowPanic: *allowPanic}
+		MaxPaths: *maxPaths, Workers: *nworkers, AllowPanic: *allowPanic, Preempt: *preempt}
 	if *timeout > 0 {
 		opts.Deadline = time.Now().Add(time.Duration(*timeout) * time.Second)
 	}
